@@ -137,7 +137,7 @@ Definition class_eqb (a b : outcome unit) : bool :=
 
 Inductive c34case :=
 | CF (deflate : bool) (units : list (N * N)) (entries : list (N * bool * N * outcome unit * N))
-| CRd (needed : N) (probes : bool) (entries : list (N * N * outcome unit))
+| CRd (needed : N) (probes : bool) (entries : list (N * N * bool * outcome unit))
 | CP (c : PData.ccase).
 
 Definition check_case (c : c34case) : bool :=
@@ -148,8 +148,10 @@ Definition check_case (c : c34case) : bool :=
         let '(r, recv) := run_wop (mk_osink chunk (Some f) (if zero : bool then KZero else KErr)) op in
         class_eqb r res && (len recv =? got)) entries
   | CRd needed probes entries =>
-      forallb (fun '(f, chunk, res) =>
-        let '(r, _) := run_rop (mk_osrc chunk (Some f)) needed (mk_rop [needed] probes) in
+      (* [early]: the source ENDS after f bytes (every later call is a zero-length read): the stream is just f bytes long *)
+      forallb (fun '(f, chunk, early, res) =>
+        let '(r, _) := if early : bool then run_rop (mk_osrc chunk None) f (mk_rop [needed] probes)
+                       else run_rop (mk_osrc chunk (Some f)) needed (mk_rop [needed] probes) in
         class_eqb r res) entries
   | CP c => PData.check_case c
   end.
